@@ -136,7 +136,8 @@ def hist_problem(dspec0, tier):
         ys = [np.asfortranarray(np.column_stack([reg["generic"], reg["generic2"]])), np.asfortranarray(np.column_stack([reg["shifted"], reg["generic"]]))]
     elif name == "Cox":
         tm = np.array([1., 2., 2., 3., 2., 1.])
-        ys = [np.column_stack([tm, [1., 1., 0., 1., 1., 0.]]), np.column_stack([tm[::-1], [1., 0., 1., 1., 1., 1.]])]
+        # tied uncensored times first, then a target without any tie (tie-group bookkeeping must be rebuilt)
+        ys = [np.column_stack([tm, [1., 1., 0., 1., 1., 0.]]), np.column_stack([[3., 1., 6., 2., 5., 4.], [1., 0., 1., 1., 1., 1.]])]
     else:
         ys = [reg["generic"], reg["shifted"]]
     ws = [np.array([0.5, -1.0, 0.25]), np.array([-0.25, 0.5, 1.0])]
